@@ -36,6 +36,7 @@ type CarrierPlan struct {
 	Fault  *Fault  `json:"fault,omitempty"`  // what the forwarder does to it
 	Refuse int     `json:"refuse,omitempty"` // the forwarder resets this many dial attempts first
 	HoldMs int     `json:"hold_ms,omitempty"` // extras: how long the client end stays
+	DelayMs int    `json:"delay_ms,omitempty"` // the pool is empty for so long before this carrier can be had
 	Other  int     `json:"other,omitempty"`  // extras with Pres "id": present the ClientID of this session (index)
 }
 
@@ -477,7 +478,7 @@ func presName(p string) string {
 
 // openCarrier dials one carrier through the forwarder and writes the preamble
 // the plan asks for.  It returns the carrier when it is usable for packets.
-func (sr *scenarioRun) openCarrier(pl *CarrierPlan, id turbotunnel.ClientID, idName string, s *session) (*carrier, error) {
+func (sr *scenarioRun) openCarrier(pl *CarrierPlan, id turbotunnel.ClientID, idName string, s *session, extra bool) (*carrier, error) {
 	k := sr.rec.NextCarrier()
 	pres := presName(pl.Pres)
 	ipv := "<absent>"
@@ -486,7 +487,11 @@ func (sr *scenarioRun) openCarrier(pl *CarrierPlan, id turbotunnel.ClientID, idN
 	}
 	hello := map[string]string{"id": "full", "noToken": "bad", "short": "part", "tokonly": "tok", "pre": "none"}[pres]
 	modelPres := map[string]string{"id": idName, "noToken": "noToken", "short": "short", "tokonly": idName, "pre": idName}[pres]
-	sr.rec.Struct("car.open", "k", k, "s", sIdx(s), "pres", modelPres, "hello", hello, "ip", ipv, "label", pl.Label)
+	role := "main"
+	if extra {
+		role = "extra"
+	}
+	sr.rec.Struct("car.open", "k", k, "s", sIdx(s), "pres", modelPres, "hello", hello, "ip", ipv, "label", pl.Label, "role", role)
 	atomic.AddInt32(&sr.dials, 1)
 	link := &Link{K: k, Fault: pl.Fault, Rec: sr.rec}
 	link.OnFault = func(l *Link) {
@@ -617,7 +622,7 @@ func (s *session) dialContext(ctx context.Context) (net.PacketConn, error) {
 			s.cmu.Unlock()
 			sr.gateWait(pl.Label)
 			k := sr.rec.NextCarrier()
-			sr.rec.Struct("car.open", "k", k, "s", s.idx, "pres", fmt.Sprintf("S%d", s.idx), "hello", "none", "ip", "<absent>", "label", pl.Label)
+			sr.rec.Struct("car.open", "k", k, "s", s.idx, "pres", fmt.Sprintf("S%d", s.idx), "hello", "none", "ip", "<absent>", "label", pl.Label, "role", "main")
 			link := &Link{K: k, Refuse: true, Rec: sr.rec}
 			c, err := sr.rig.Fwd.Dial(link)
 			if err == nil {
@@ -631,7 +636,10 @@ func (s *session) dialContext(ctx context.Context) (net.PacketConn, error) {
 			continue
 		}
 		sr.gateWait(pl.Label)
-		c, err := sr.openCarrier(&pl, s.id, fmt.Sprintf("S%d", s.idx), s)
+		if pl.DelayMs > 0 && attempt == 0 {
+			time.Sleep(time.Duration(pl.DelayMs) * time.Millisecond)
+		}
+		c, err := sr.openCarrier(&pl, s.id, fmt.Sprintf("S%d", s.idx), s, false)
 		if planned {
 			s.cmu.Lock()
 			s.next++
@@ -845,7 +853,7 @@ func (sr *scenarioRun) runExtra(pl CarrierPlan, wg *sync.WaitGroup) {
 		id = owner.id
 		name = fmt.Sprintf("S%d", owner.idx)
 	}
-	c, err := sr.openCarrier(&pl, id, name, owner)
+	c, err := sr.openCarrier(&pl, id, name, owner, true)
 	sr.gateDone(pl.Label)
 	if err != nil {
 		return
